@@ -789,10 +789,19 @@ func LookupTerminfo(name string) (*Terminfo, error) {
 	// If the user has requested 24-bit color with $COLORTERM, then
 	// amend the value (unless already present).  This means we don't
 	// need to have a value present.
-	if addtruecolor &&
+	amendRGB := addtruecolor &&
 		t.SetFgBgRGB == "" &&
 		t.SetFgRGB == "" &&
-		t.SetBgRGB == "" {
+		t.SetBgRGB == ""
+
+	if amendRGB || add256color {
+		// The entry found is the registered one, shared by every
+		// lookup; amend a private copy.
+		c := *t
+		t = &c
+	}
+
+	if amendRGB {
 
 		// Supply vanilla ISO 8613-6:1994 24-bit color sequences.
 		t.SetFgRGB = "\x1b[38;2;%p1%d;%p2%d;%p3%dm"
